@@ -7,6 +7,7 @@ import Driver.Text
 import Driver.Cap
 import Driver.Promise
 import Driver.Server
+import Driver.Rpc
 /-! `modeld`: one operation per line on stdin, one canonical result per line on stdout. -/
 open Driver
 
@@ -20,6 +21,7 @@ def dispatch (line : String) : String :=
   | "cap" :: rest => Driver.Cap.run rest
   | "promise" :: rest => Driver.Promise.run rest
   | "server" :: rest => Driver.Server.run rest
+  | "rpc" :: rest => Driver.Rpc.run rest
   | "build" :: rest => Driver.Read.runBuild rest
   | ["case", _] => "case"
   | _ => "bad-op"
